@@ -194,7 +194,7 @@ class _MVN:
 
 
 class _Norm:
-    """scipy.stats.norm: cdf/pdf/logcdf/logpdf as UFs of the standardised argument."""
+    """scipy.stats.norm: cdf/pdf are the UFs PHI / NPDF of the standardised argument, logcdf/logpdf their logarithms."""
 
     def _std(self, x, loc, scale):
         return (x - loc) / scale
@@ -232,15 +232,31 @@ class _Norm:
         if not (core.symbolic_mode() and (has_sym(x) or has_sym(loc) or has_sym(scale))):
             return _ss.norm.logcdf(x, loc, scale)
         ctx = core.cur()
-        return self._u('LOGPHI', self._std(x, loc, scale), lambda r, v: ctx._fact(r.t < 0))
+        # consistent with cdf: the log of the same uninterpreted PHI(z) (0 < PHI < 1, hence < 0)
+        c = self.cdf(x, loc, scale)
+        if isinstance(c, _np.ndarray):
+            out = _np.empty(c.shape, dtype=object)
+            fo, fc = out.reshape(-1), c.reshape(-1)
+            for i in range(len(fc)):
+                fo[i] = ctx.uf_log(fc[i]) if core.is_sym(fc[i]) else _np.log(fc[i])
+            return out
+        return ctx.uf_log(c) if core.is_sym(c) else _np.log(c)
 
     def logpdf(self, x, loc=0, scale=1):
         if not (core.symbolic_mode() and (has_sym(x) or has_sym(loc) or has_sym(scale))):
             return _ss.norm.logpdf(x, loc, scale)
         ctx = core.cur()
         z = self._std(x, loc, scale)
-        return self._u('LOGNPDF', z, lambda r, v: None) - core.SymX(core.rterm(scale)).log() if has_sym(scale) \
-            else self._u('LOGNPDF', z, lambda r, v: None) - float(_np.log(scale))
+        # consistent with pdf: the log of the same uninterpreted NPDF(z) > 0
+        d = self._u('NPDF', z, lambda r, v: ctx._fact(r.t > 0))
+        if isinstance(d, _np.ndarray):
+            lg = _np.empty(d.shape, dtype=object)
+            fo, fd = lg.reshape(-1), d.reshape(-1)
+            for i in range(len(fd)):
+                fo[i] = ctx.uf_log(fd[i]) if core.is_sym(fd[i]) else _np.log(fd[i])
+        else:
+            lg = ctx.uf_log(d) if core.is_sym(d) else _np.log(d)
+        return lg - core.SymX(core.rterm(scale)).log() if has_sym(scale) else lg - float(_np.log(scale))
 
 
 class SSFacade(_Sub):
